@@ -14,6 +14,7 @@ import (
 	plugin "github.com/hashicorp/go-plugin"
 	grpctest "github.com/hashicorp/go-plugin/test/grpc"
 	"google.golang.org/grpc"
+	"google.golang.org/grpc/backoff"
 )
 
 // Payload is the deterministic byte stream for a nonce: every byte value
@@ -298,6 +299,29 @@ func GRPCDialPingWait(b *plugin.GRPCBroker, id uint32, timeout time.Duration) *D
 	r := &DialRes{}
 	t0 := time.Now()
 	conn, err := b.Dial(id)
+	r.DialMs = time.Since(t0).Milliseconds()
+	if err != nil {
+		r.DialErr = err.Error()
+		return r
+	}
+	r.conn = conn
+	msg, err := PingConn(conn, timeout, grpc.WaitForReady(true))
+	r.PingMs = time.Since(t0).Milliseconds() - r.DialMs
+	if err != nil {
+		r.PingErr = err.Error()
+	}
+	r.Msg = msg
+	return r
+}
+
+// GRPCDialPingShort is GRPCDialPingWait through DialWithOptions with a short per-attempt connect timeout.
+func GRPCDialPingShort(b *plugin.GRPCBroker, id uint32, timeout time.Duration) *DialRes {
+	r := &DialRes{}
+	t0 := time.Now()
+	conn, err := b.DialWithOptions(id, grpc.WithConnectParams(grpc.ConnectParams{
+		MinConnectTimeout: 300 * time.Millisecond,
+		Backoff:           backoff.Config{BaseDelay: 200 * time.Millisecond, Multiplier: 1, MaxDelay: 200 * time.Millisecond},
+	}))
 	r.DialMs = time.Since(t0).Milliseconds()
 	if err != nil {
 		r.DialErr = err.Error()
